@@ -140,7 +140,8 @@ func parallel(n uint64, f func(lo, hi uint64, fail func(string))) []string {
 func (s *State) Sweep(name string, stride uint64) V {
 	var n uint64
 	var fails []string
-	pan, msg := guarded(func() string { return "sweep " + name }, func() {
+	// a sweep runs for minutes by design: it is not timed by the watchdog
+	pan, msg := unguarded(func() {
 		switch name {
 		case "loss24": // every 24-bit cumulative-lost value: marshal places it big-endian in octets 5..7, unmarshal returns it
 			n = 1 << 24
@@ -320,7 +321,7 @@ func (s *State) Sweep(name string, stride uint64) V {
 	for i, f := range fails {
 		fl[i] = f
 	}
-	ev := V{"op": "sweep", "h": 0, "entry": name, "stride": int(stride), "checked": int((n + stride - 1) / stride % (1 << 31)), "failures": fl, "panic": pan}
+	ev := V{"op": "sweep", "h": 0, "entry": name, "stride": int(stride), "checked_thousands": int((n + stride - 1) / stride / 1000), "failures": fl, "panic": pan}
 	if pan {
 		ev["msg"] = msg
 	}
